@@ -15,6 +15,7 @@ def check(ctx):
                         "records iff any parent is sampled, setting a local parent opens a scope, no-op only without a recording parent.")
     ctx.explanation += (" R9 the scope bundle (C10's rules): scopes opened on every path and refused only when the stack is full, released "
                         "scopes popped with nothing left behind, the stack looked at from its top only and the only per-thread context.")
+    ctx.explanation += (" Round 5: R10 every guard's Drop closes its scope / collects its spans on every path (also while unwinding).")
     ctx.not_decided = "polling from other threads, restoration of context (C10), delivery (C01/C03)."
     facts = ctx.facts("E")
     found = 0
